@@ -55,7 +55,7 @@ func runC07(b *mon.B) {
 	r := gen.New(uint64(b.Seed), 0xC07, uint64(b.Index))
 	caseNo := 0
 	nCfg := b.N(2, 12)
-	perCfg := b.N(120, 900)
+	perCfg := b.NQ(120)
 	for ci := 0; ci < nCfg; ci++ {
 		sc := richConfig(r, 1+r.Intn(2))
 		if ci%4 == 3 {
@@ -71,7 +71,8 @@ func runC07(b *mon.B) {
 		}
 		ref.Net.SetKeepLog(false)
 		ref.Net.Watchdog = 20 * time.Second
-		for k := 0; k < perCfg; k++ {
+		abandon := false
+		for k := 0; k < perCfg && !abandon; k++ {
 			caseNo++
 			scope := sc.Scopes[r.Intn(len(sc.Scopes))]
 			nSess := 1 + r.Intn(4)
@@ -112,6 +113,7 @@ func runC07(b *mon.B) {
 						b.Inconclusive("case %d: %v", caseNo, res.Err)
 					}
 					dead = true
+					abandon = true // this instance is not used any further
 					return
 				}
 				b.Count("requests", 1)
